@@ -182,7 +182,7 @@ theorem C24_src_state_writes : Gen.IpcGate.versionWrites = 1 ∧ Gen.IpcGate.did
 
 /-- the dispatch switch agrees with the model's `cmdInfo` (which handler reads a body, which sends one) -/
 theorem C24_src_dispatch :
-    dispatchAgrees Gen.IpcGate.dispatch = true ∧ Gen.IpcGate.membersBodyGuard = "command == membersFilteredCommand" := by decide
+    dispatchAgrees Gen.IpcGate.dispatch = true ∧ Gen.IpcGate.membersBodyGuard = "$command == \"members-filtered\"" := by decide
 
 theorem onBodyV_good {Obj : Type} (cd : Codec Obj) (key : String) (s : St) (o : Obj) :
     onBodyV good cd key s o = onBody cd key s o := by
